@@ -11,6 +11,10 @@ import (
 	enc "github.com/named-data/ndnd/std/encoding"
 )
 
+// maxStreamPacketSize is the largest TLV block accepted from the stream
+// (the maximum NDN packet size).
+const maxStreamPacketSize = 8800
+
 type StreamFace struct {
 	network string
 	addr    string
@@ -44,6 +48,12 @@ func (f *StreamFace) Run() {
 			if err != nil {
 				break
 			}
+		}
+		if l > maxStreamPacketSize {
+			// Not a valid NDN packet: do not allocate what the peer announces.
+			// The framing is lost, so the stream cannot be resynchronized.
+			f.onError(errors.New("received TLV block larger than the maximum packet size"))
+			break
 		}
 		l0 := t.EncodingLength()
 		l1 := l.EncodingLength()
